@@ -21,7 +21,7 @@ RULE = ('(a) Hypothesis draws packet lists of length 0..20 mixing text (no U+001
         'well-formed ones must equal the reference, the rest must return or raise an Exception. '
         '(c) longer random strings from the same alphabet and size templates (deep nesting, long '
         'digit runs, huge packet counts) for totality / no hang. Non-trivial: >=2 packets of >=2 '
-        'kinds, or a string containing a separator, b, quote or bracket. Distinct: hash of input.')
+        'kinds, or a string containing a separator, b, quote or bracket. Distinct: hash of input. (d) a coverage-guided atheris campaign (fuzz/atheris_codec.py) runs the same checks on fuzzer-built strings, d= forms and lists; its executions are counted, its non-trivial cases counted but not de-duplicated.')
 ASSUMPTIONS = ['stdlib json, base64 and urllib.parse are correct (used by the reference reader)',
                'malformed base64 and non-ASCII digits are open cells (totality only)']
 IMPL = 'codec'
@@ -238,6 +238,13 @@ def run_shard(ctx):
     run_given(ctx, long_st, lambda s: check_string(s, ctx), max_examples=1500 if quick else 40000)
     # (a) lists
     run_given(ctx, list_st, lambda l: check_list(l, ctx), max_examples=1500 if quick else 30000)
+    # coverage-guided campaign (atheris) with the same oracles: every shard its own seed in
+    # the thorough tier, one short campaign in the quick tier
+    from vk import athfuzz
+    if not quick:
+        athfuzz.campaign(ctx, ID, 150000)
+    elif ctx.shard == 0:
+        athfuzz.campaign(ctx, ID, 6000)
 
 
 def replay(case, ctx):
